@@ -141,9 +141,95 @@ Record world := {
   w_apply : pyval -> list pyval -> M pyval;             (* f(args), f a run-time callable *)
   w_callable : pyval -> bool;                           (* callable(x) *)
   w_repr_str : pystr -> pystr;                          (* repr of a str *)
-  w_json_dumps : list pystr -> pystr                    (* json.dumps of a list of str *)
+  w_json_dumps : list pystr -> pystr;                   (* json.dumps of a list of str *)
+  w_new : pyval -> pyval -> pyval -> M pyval            (* C( *args, **kwargs): creating an instance of class C *)
 }.
 
 (* str(e): the argument; KeyError shows its repr *)
 Definition exc_str (w : world) (x : pyexc) : pystr :=
   match x_cls x with KeyError => w_repr_str w (x_arg x) | _ => x_arg x end.
+
+(* ------------------------------------------------------------------ run-time attribute access (entry points)
+   The object may be `self` (then: the instance __dict__ first, then what the class provides, the heap's "self") or
+   any other object of the heap.  A run-time attribute NAME must be a str. *)
+Definition is_self_ref (o : pyval) : bool :=
+  match o with POther t n => pystr_eqb t ref_tag && pystr_eqb n (s2p "self") | _ => false end.
+
+(* getattr(o, k[, d]) *)
+Definition getattr_dynM (h : heap) (o k : pyval) (d : option pyval) : M pyval :=
+  fun s =>
+    match k with
+    | PStr n =>
+        match (if is_self_ref o then alist_get s n else None) with
+        | Some v => (s, inl v)
+        | None => match d with
+                  | Some dv => lift (obj_getattr_def h o n dv) s
+                  | None => lift (obj_getattr h o n) s
+                  end
+        end
+    | _ => (s, inr (mk_exc TypeError []))
+    end.
+
+(* hasattr(o, k) *)
+Definition hasattr_dynM (h : heap) (o k : pyval) : M bool :=
+  fun s =>
+    match k with
+    | PStr n =>
+        match (if is_self_ref o then alist_get s n else None) with
+        | Some _ => (s, inl true)
+        | None => lift (obj_hasattr h o n) s
+        end
+    | _ => (s, inr (mk_exc TypeError []))
+    end.
+
+(* m.get(k[, d]) on a run-time mapping (a dict; a heap object that is a Mapping is outside the model) *)
+Definition obj_or_dict_get (h : heap) (m k d : pyval) : res pyval := PyOpsVersioned.py_dict_get m k d.
+
+(* a is b  for two objects of the heap (classes, singletons): the same name *)
+Definition py_is_obj (a b : pyval) : res bool :=
+  match a, b with
+  | POther ta na, POther tb nb =>
+      if pystr_eqb ta ref_tag && pystr_eqb tb ref_tag then Ok (pystr_eqb na nb) else Raise Unmodelled
+  | _, _ => Raise Unmodelled
+  end.
+
+(* issubclass(a, b) / isinstance(o, b) for a class object b: the heap says so by the pseudo-attributes
+   "issubclass:<b>" of the class a and "isinstance:<b>" of the object o (b: the NAME of the class object) *)
+Definition rel_attr (rel : pystr) (b : pystr) : pystr := rel ++ b.
+Definition obj_rel (h : heap) (rel : pystr) (a b : pyval) : res bool :=
+  match a, b with
+  | POther ta na, POther tb nb =>
+      if pystr_eqb ta ref_tag && pystr_eqb tb ref_tag then
+        match h na (rel_attr rel nb) with
+        | Some v => Ok (py_truthy v)
+        | None => Raise Unmodelled
+        end
+      else Raise Unmodelled
+  | _, POther tb nb => if pystr_eqb tb ref_tag then (if pystr_eqb rel (s2p "isinstance:") then Ok false else Raise TypeError) else Raise Unmodelled
+  | _, _ => Raise Unmodelled
+  end.
+Definition obj_issubclass (h : heap) (a b : pyval) : res bool := obj_rel h (s2p "issubclass:") a b.
+Definition obj_isinstance_of (h : heap) (o b : pyval) : res bool := obj_rel h (s2p "isinstance:") o b.
+
+(* a in b  for two str *)
+Fixpoint str_prefix_of (p s : pystr) : bool :=
+  match p, s with
+  | [], _ => true
+  | x :: p', y :: s' => N.eqb x y && str_prefix_of p' s'
+  | _, [] => false
+  end.
+Fixpoint str_contains (p s : pystr) : bool :=
+  str_prefix_of p s || match s with [] => false | _ :: s' => str_contains p s' end.
+Definition py_substr (p s : pystr) : res bool := Ok (str_contains p s).
+
+(* isinstance(v, collections.abc.Mapping): a dict is one; an object of the heap says so ("isinstance:Mapping") *)
+Definition py_is_mapping (h : heap) (v : pyval) : res bool :=
+  match v with
+  | PDict _ => Ok true
+  | POther t n =>
+      if pystr_eqb t ref_tag
+      then Ok (match h n (s2p "isinstance:Mapping") with Some b => py_truthy b | None => false end)
+      else Raise Unmodelled
+  | PStruct _ _ | PEnum _ _ _ => Raise Unmodelled
+  | _ => Ok false
+  end.
